@@ -14,8 +14,8 @@ import (
 )
 
 // C11–C14: direct calls of the value methods on all pairs of the boundary
-// lattice (all 256x256 pairs for 8-bit types; all 2^32 pairs of the 16-bit
-// types in the thorough tier), against a math/big reference.
+// lattice (all 256x256 pairs for 8-bit types; every 16-bit value against every lattice value,
+// both ways round, in the thorough tier), against a math/big reference.
 
 type arithCase struct {
 	Type string `json:"type"`
@@ -460,34 +460,45 @@ func runArith(p *arithProp) func(env *mc.Env) {
 		}
 		var jobs []job
 		for _, t := range p.types() {
-			var base []*big.Int
+			lattice := num.Lattice(t, env.Thorough())
+			// thorough tier, 16-bit types: every value of the type against every lattice value, both ways round
+			// (all 2^32 pairs would be 10^11 calls over the family; the cross with the lattice is 10^7 per operator)
+			var full []*big.Int
 			if t.Bits == 16 && env.Thorough() {
-				lo := int64(0)
-				hi := int64(65535)
+				lo, hi := int64(0), int64(65535)
 				if t.Signed() {
 					lo, hi = -32768, 32767
 				}
 				for i := lo; i <= hi; i++ {
-					base = append(base, big.NewInt(i))
+					full = append(full, big.NewInt(i))
 				}
-			} else {
-				base = num.Lattice(t, env.Thorough())
 			}
 			for _, op := range p.ops(t) {
-				bs := base
-				if p.operandsB != nil {
-					bs = p.operandsB(t, op, num.Lattice(t, env.Thorough()))
-				}
-				if op == "Negate" {
-					bs = []*big.Int{nil}
-				}
-				chunk := 64
-				for lo := 0; lo < len(base); lo += chunk {
-					hi := lo + chunk
-					if hi > len(base) {
-						hi = len(base)
+				addJobs := func(as, bs []*big.Int) {
+					if p.operandsB != nil && (op == "Shl" || op == "Shr") {
+						bs = p.operandsB(t, op, lattice)
 					}
-					jobs = append(jobs, job{t, op, base, bs, lo, hi})
+					if op == "Negate" {
+						bs = []*big.Int{nil}
+					}
+					chunk := 64
+					if len(as) > 4096 {
+						chunk = 2048
+					}
+					for lo := 0; lo < len(as); lo += chunk {
+						hi := lo + chunk
+						if hi > len(as) {
+							hi = len(as)
+						}
+						jobs = append(jobs, job{t, op, as, bs, lo, hi})
+					}
+				}
+				addJobs(lattice, lattice)
+				if full != nil {
+					addJobs(full, lattice)
+					if op != "Negate" && op != "Shl" && op != "Shr" {
+						addJobs(lattice, full)
+					}
 				}
 			}
 		}
@@ -513,7 +524,12 @@ func runArith(p *arithProp) func(env *mc.Env) {
 					key := j.t.Name + "." + j.op + ":" + class
 					classes[key]++
 					if class != "exact" && class != "bitop" {
-						env.R.Nontrivial(fmt.Sprintf("%s|%s|%v", key, a, b))
+						if len(j.as) > 4096 || len(j.bs) > 4096 {
+							// complete 16-bit sweeps: distinct by (class, the swept operand) to bound memory
+							env.R.Nontrivial(fmt.Sprintf("%s|%v|sweep", key, a))
+						} else {
+							env.R.Nontrivial(fmt.Sprintf("%s|%s|%v", key, a, b))
+						}
 					}
 				}
 			}
@@ -548,8 +564,8 @@ func replayArith(p *arithProp) func(env *mc.Env, raw json.RawMessage) (bool, str
 
 func init() {
 	rules := map[string]string{
-		"C11": "every (type, op, a, b) with a,b from the boundary lattice B(T) (all 256x256 pairs for 8-bit types; all 2^32 pairs of 16-bit types in the thorough tier) on Plus/Minus/Mul/Div/Mod/Negate of Int8..Int256, UInt8..UInt256, Int, UInt, compared with math/big; non-trivial = distinct case whose exact result is out of range or divides by zero",
-		"C12": "every (Word type, op, a, b) over the lattice (complete for Word8; complete for Word16 in thorough), compared with math/big reduced mod 2^n; non-trivial = wrapped or division by zero",
+		"C11": "every (type, op, a, b) with a,b from the boundary lattice B(T) (all 256x256 pairs for 8-bit types; every 16-bit value x every lattice value, both ways round, in the thorough tier) on Plus/Minus/Mul/Div/Mod/Negate of Int8..Int256, UInt8..UInt256, Int, UInt, compared with math/big; non-trivial = distinct case whose exact result is out of range or divides by zero",
+		"C12": "every (Word type, op, a, b) over the lattice (complete for Word8; every Word16 value x lattice in thorough), compared with math/big reduced mod 2^n; non-trivial = wrapped or division by zero",
 		"C13": "every (type, saturating op, a, b) over the lattice for every integer AND fixed-point type whose sema type declares the member (integers: this package; Fix64/UFix64/Fix128/UFix128: package fixsat, classes prefixed fixed:); non-trivial = clamped or division by zero",
 		"C14": "every (type, bit op, a, b) over the lattice, shift amounts 0..width+1, around 2^31/2^32/2^63/2^64, negatives, type max; non-trivial = shift or negative-shift cases",
 	}
